@@ -33,16 +33,20 @@ def c11_write_oracle(op, obs, before, after):
 oracles.ORACLES['C11'] = c11_write_oracle
 
 
-def run_one(rng, n_ops, profile):
-    """reads.run_one plus the status of every write -> (steps, statuses)"""
+def run_one(rng, n_ops, profile, directed=False):
+    """reads.run_one plus the status of every write -> (steps, statuses); directed: as hist.run_history"""
     from harness import impl
     app = impl.App()
     steps, statuses, fulls = [], [], []
     qrng = random.Random(rng.random())
     dump = ops.canon_dump(app.raw_dump())
     rcmap = ops.rc_map(dump)
-    for _ in range(n_ops):
-        op = gen.gen_op(rng, dump, profile)
+    for k in range(n_ops):
+        gen.FORCE = gen.TARGETS[(k // 2) % len(gen.TARGETS)] if directed and k >= 10 and k % 2 == 0 else None
+        try:
+            op = gen.gen_op(rng, dump, profile)
+        finally:
+            gen.FORCE = None
         r, obs = hist.observe(app, op)
         dump = ops.canon_dump(app.raw_dump())
         rcmap_before, rcmap = rcmap, ops.rc_map(dump)
@@ -65,6 +69,9 @@ def run_one(rng, n_ops, profile):
         fulls.append(full)
     app.close()
     return steps, statuses, fulls
+
+
+PROV_LOCAL = ('inv_set', 'inv_post', 'inv_put', 'inv_delete', 'inv_delete_all', 'traits_set', 'traits_delete', 'aggs_set')
 
 
 def read_oracle(steps, statuses, fulls):
@@ -97,6 +104,15 @@ def read_oracle(steps, statuses, fulls):
                 theirs = sorted((k, rc, amt) for k in cons_rows for (uu, rc, amt) in cons_rows[k] if uu == u)
                 if mine != theirs:
                     bad.append((si, 'allocations of provider %d by provider %r differ from those by consumer %r' % (u, mine, theirs)))
+        if prev is not None and st < 300 and op[0] in PROV_LOCAL:
+            # frame: a successful write addressed to ONE provider changes nothing that is reported about another one
+            target = op[1] if op[0] == 'inv_delete' else op[2]
+            for key, c in views.items():
+                if (key[0].startswith(('(QInvs ', '(QInv ', '(QRpTraits ', '(QRpAggs ')) and key in prev and prev[key] != c
+                        and int(key[0][1:-1].split()[1]) != target):
+                    bad.append((si, 'successful %s on provider %d changed read %s at 1.%d of another provider: %r -> %r' % (
+                        op[0], target, key[0], key[1], prev[key], c)))
+                    break
         if prev is not None and st >= 400:
             for key, c in views.items():
                 if key in prev and prev[key] != c:
@@ -113,7 +129,7 @@ def _work(args):
     batch, oracle_hits, n_reads = [], [], 0
     for i in idxs:
         rng = random.Random(seed * 1000003 + i)
-        steps, statuses, fulls = run_one(rng, n_ops, profiles[i % len(profiles)])
+        steps, statuses, fulls = run_one(rng, n_ops, profiles[i % len(profiles)], directed=(i % 2 == 1))
         batch.append((i, steps))
         n_reads += sum(len(r) for _o, _m, r in steps)
         for si, text in read_oracle(steps, statuses, fulls)[:3]:
@@ -149,7 +165,7 @@ def run(pid, tier, out):
     # (1) writes
     wstats = {'evaluations': 0, 'status': collections.Counter(), 'ops': collections.Counter(), 'distinct': set()}
     whits = []
-    cases = checks_seq.run_stream('C11', 16 if tier == 'quick' else 300, 30, seed + 11, 'default', wstats, whits)
+    cases = checks_seq.run_stream('C11', 36 if tier == 'quick' else 300, 30, seed + 11, 'default', wstats, whits)
     wdis, corr_error = [], None
     if model_ok:
         try:
